@@ -17,7 +17,8 @@ Event vocabulary (name, depth, args...) -- `serial` is Stream::verif_serial, `id
     stream.notify_push serial id had
     conn.task_wake     site had                 1 Prioritize::schedule_send, 2 Send::send_headers (pending_open), 3 Recv::release_connection_capacity,
                                                 4 Recv::release_capacity, 5 Recv::set_target_connection_window, 6 Drop for Streams,
-                                                7 drop_stream_ref, 8 StreamRef::reserve_capacity
+                                                7 drop_stream_ref (unreferenced closed stream), 8 StreamRef::reserve_capacity,
+                                                9 drop_stream_ref (only the connection's reference is left)
     conn.self_wake                              client::Connection::poll re-wakes itself when the last reference went away during the poll
   sites (something a waiter may be waiting for happened; the primitive notifications that follow belong to the site)
     stream.notify_capacity serial id            (already present)
@@ -98,10 +99,22 @@ def hook(indent, name, args, kind="ev"):
     return ev(indent, name, args, kind)
 
 
+def site9():
+    """commit 6b1d165 added a wake at the end of drop_stream_ref (only the connection's reference is left): site 9"""
+    f = File("proto/streams/streams.rs")
+    if "vec![9, me.actions.task.is_some() as i64]" in f.s:
+        return
+    anchor = "        if let Some(task) = me.actions.task.take() {\n            task.wake();\n        }\n    }\n}\n\nfn maybe_cancel("
+    f.before(anchor, hook(8, "conn.task_wake", "9;; me.actions.task.is_some() as i64"), count=1)
+    f.save()
+    print("wake hook for site 9 inserted")
+
+
 def main():
     f = File("proto/streams/stream.rs")
     if '"stream.notify_recv"' in f.s:
         print("wake hooks already present")
+        site9()
         return 0
     # ---- stream.rs
     f.before("        if let Some(task) = self.open_task.take() {\n", hook(8, "stream.notify_open", S("self") + ";; self.open_task.is_some() as i64"), count=1)
@@ -158,6 +171,7 @@ def main():
     f.before("            cx.waker().wake_by_ref();\n", hook(12, "conn.self_wake", ""), count=1)
     f.save()
     print("wake hooks inserted")
+    site9()
     return 0
 
 
